@@ -32,6 +32,9 @@ type Config struct {
 	// Simulated time is then allowed to pass (as it would in reality); if no timer is pending
 	// either, nothing can ever change what it is waiting for: the run ends with verdict "livelock".
 	SpinLimit int
+	// TaskStallPer1k: per thousand schedule points, the chance that the task reaching it is
+	// descheduled for 9-360 ms of simulated time while the others go on.
+	TaskStallPer1k int
 	Horizon    time.Duration
 	GOMAXPROCS int
 	Trace      bool
@@ -100,6 +103,7 @@ type Outcome struct {
 	Panics      []string
 	StuckReport []string
 	Stalls      int
+	TaskStalls  int
 	LateTimers  int
 	Trace       []TraceEntry
 	Tasks       int
@@ -552,6 +556,24 @@ func Pre(site string) *Task {
 	t.state = stReady
 	s.mu.Unlock()
 	t.park()
+	// Fault: this one task is descheduled for a while (a slow node: a goroutine that does not get
+	// the processor, a page fault, a stopped process) while everything else goes on - unlike a
+	// stall, which stops the clock for everybody alike.
+	if s.cfg.TaskStallPer1k > 0 && !s.tearing && s.tape.Choose(1000, "task-stall?") >= 1000-s.cfg.TaskStallPer1k {
+		d := time.Duration(1+s.tape.Choose(40, "task-stall-d")) * 9 * time.Millisecond
+		s.out.TaskStalls++
+		s.trace(t, "task stall %v", d)
+		tm := time.NewTimer(d)
+		BeginOp(t)
+		select {
+		case <-tm.C:
+		case <-t.kill:
+			tm.Stop()
+			panic(Killed)
+		}
+		EndOp(t)
+		t.site = site
+	}
 	return t
 }
 
